@@ -1162,7 +1162,7 @@ ALIAS_BOUNDARY = [
 ]
 
 
-class Hang(Exception):
+class Hang(BaseException):
     pass
 
 
